@@ -18,11 +18,13 @@ import (
 	"github.com/getlantern/golog"
 	"github.com/getlantern/vtime"
 	"github.com/getlantern/wal"
+	"github.com/getlantern/zenodb/common"
 	"github.com/getlantern/zenodb/core"
 )
 
 //zx:group restart
 //zx:replace (*github.com/getlantern/zenodb.table).startWALProcessing zxStartWAL
+//zx:replace (*github.com/getlantern/zenodb.table).startFollowing zxStartFollowing
 
 var zxStartOffset wal.Offset
 var zxStartCalled bool
@@ -33,7 +35,18 @@ func zxStartWAL(t *table, walOffset wal.Offset) error {
 	return nil
 }
 
-//zx:harness prop=C02 id=C02.L tier=quick env=fs,restart shard=backfill:2
+// zxStartFollowing: a follower hands its per-leader offsets on to the subscription it sends to the
+// leaders (makeFollows requests the lowest of its tables' offsets, the leader's followWAL opens
+// wal.NewReader at it): leader 0's offset is recorded.
+func zxStartFollowing(t *table, offsetsBySource common.OffsetsBySource) {
+	zxStartOffset = offsetsBySource[0]
+	zxStartCalled = true
+}
+
+// C02.L covers a stand-alone node and (C12.L) a follower of a cluster: the same offset
+// computation feeds the follower's subscription to its leader.
+//
+//zx:harness prop=C02+C12 id=C02.L tier=quick env=fs,restart shard=backfill:2,follower:2
 func zxC02RestartOffset() {
 	zxFSReset()
 	zxStartCalled = false
@@ -57,6 +70,9 @@ func zxC02RestartOffset() {
 	opts := &TableOpts{Name: "t", RetentionPeriod: retention, SQL: "SELECT SUM(a) AS a FROM inbound GROUP BY period(1s)"}
 	if vrtShape("backfill", 2) == 1 {
 		opts.Backfill = 10 * time.Minute
+	}
+	if vrtShape("follower", 2) == 1 {
+		db.opts.Follow = func(f func(sources []int) map[int]*common.Follow, cb func(data []byte, newOffset wal.Offset, source int) error) {}
 	}
 	err := db.CreateTable(opts)
 	vrtAssert(err == nil, "the table of the earlier run is re-created")
